@@ -7,4 +7,12 @@ require (
 	github.com/basecomplextech/spec v0.0.0
 )
 
+require (
+	github.com/mattn/go-isatty v0.0.20 // indirect
+	github.com/pierrec/lz4/v4 v4.1.21 // indirect
+	golang.org/x/sys v0.22.0 // indirect
+	gopkg.in/natefinch/lumberjack.v2 v2.2.1 // indirect
+	gopkg.in/yaml.v3 v3.0.1 // indirect
+)
+
 replace github.com/basecomplextech/spec => /repo
